@@ -1,4 +1,67 @@
-import EudoxiaModel.Proofs.Reach
+import EudoxiaModel.Proofs.Account
+import EudoxiaModel.Props.C10
+/-! # C09 — every accepted assignment becomes exactly one container with exactly one outcome -/
 namespace Eudoxia.C09
-theorem placeholder : True := trivial
+open Eudoxia OpState
+
+/-- **a command naming a pool that does not exist is rejected, not silently dropped** — and nothing changes -/
+theorem unknown_pool_rejected (w : World) (sus : List (Nat × Nat)) (asgs : List Asg)
+    (h : (∃ s ∈ sus, s.1 ≥ w.pools.length) ∨ (∃ a ∈ asgs, a.pool ≥ w.pools.length)) :
+    w.execTick sus asgs = .error (.unknownPool, some w) := by
+  unfold World.execTick
+  have : (sus.any (fun s => decide (s.1 ≥ w.pools.length)) || asgs.any (fun a => decide (a.pool ≥ w.pools.length))) = true := by
+    rcases h with ⟨s, hs, h1⟩ | ⟨a, ha, h1⟩
+    · simp only [Bool.or_eq_true, List.any_eq_true, decide_eq_true_eq]; exact Or.inl ⟨s, hs, h1⟩
+    · simp only [Bool.or_eq_true, List.any_eq_true, decide_eq_true_eq]; exact Or.inr ⟨a, ha, h1⟩
+  simp [this]
+
+/-- **accounting (full strength)**: in every world reachable under arbitrary command sequences, for every pool,
+containers created (= assignments the pool accepted) = running + suspending + suspended + results reported, and the
+successes are among the reported results (the remainder are the failures) -/
+theorem assignments_equal_outcomes_plus_live {w0 w : World} (g0 : w0.AllPools PoolAcct) (h : Reach w0 w) :
+    ∀ p ∈ w.pools, p.created = p.active.length + p.suspending.length + p.suspended.length + p.tickTimes.length ∧
+      p.numCompleted ≤ p.tickTimes.length := by
+  intro p hp
+  obtain ⟨_, a⟩ := reach_lift poolAcct_tick h g0 p hp
+  exact ⟨a.total, a.okLe⟩
+
+theorem fresh_world_good (cfg : Cfg) (npools cpus ram : Nat) :
+    ({ cfg := cfg, pools := List.replicate npools (Pool.fresh cpus ram) } : World).AllPools PoolAcct := by
+  intro p hp
+  have := List.eq_of_mem_replicate hp
+  subst this
+  exact ⟨⟨⟨poolInv_fresh _ _ _, by simp [Pool.NonNeg, Pool.fresh]⟩, memOK_fresh _ _⟩, ⟨rfl, Nat.le_refl _⟩⟩
+
+/-- **each tick of a pool: one container per accepted assignment, one result per container that ends** — the pool's containers
+grow by exactly the number it creates, and the results of the tick are exactly the containers that leave the running list finished -/
+theorem one_result_per_finished_container (p : Pool) :
+    (collect p).2 = (p.active.filter (·.completed)).map mkRes ∧ (collect p).1.active = p.active.filter (fun c => !c.completed) :=
+  ⟨by simp [collect], (collect_fields p).1⟩
+
+/-- a result is a success exactly when the container ended without an error -/
+theorem success_iff_no_error (c : Ctr) : (mkRes c).ok = !c.err := rfl
+
+/-- **failure shape**: a killed container reports an error and its current and later operators are FAILED -/
+theorem killed_container_fails_unfinished_suffix {w w' : Store} {c c' : Ctr} {cons cons' : Int}
+    (h : c.kill w cons = .ok (w', c', cons')) :
+    c'.err = true ∧ c'.completed = true ∧ (∀ o ∈ c.ops.drop c.curOpIdx, w'.stOf o = failed) ∧
+    (∀ o, w.stOf o = completed → w'.stOf o = completed) := by
+  obtain ⟨e1, _⟩ := kill_eq h
+  refine ⟨by rw [e1]; rfl, by rw [e1]; rfl, ?_, ?_⟩
+  · unfold Ctr.kill at h
+    split at h
+    · cases h
+    · rename_i w1 hw1
+      have : w1 = w' := ok_fst h
+      subst this
+      exact C10.transAll_sets _ _ _ _ hw1
+  · intro o ho
+    exact completed_final (kill_steps h) o ho
+
+/-- a finished suspension reports no result -/
+theorem suspended_container_reports_nothing (p : Pool) : ∀ r ∈ (collect p).2, ∃ c ∈ p.active, r = mkRes c := by
+  intro r hr
+  obtain ⟨c, hc, _, e⟩ := C10.results_come_from_running_containers p r hr
+  exact ⟨c, hc, e⟩
+
 end Eudoxia.C09
